@@ -15,6 +15,14 @@ OBLIGATIONS = ['C01.inline_and2', 'C01.inline_or2', 'C01.inline_xor2', 'C01.inli
                'C01.inline_div', 'C01.inline_mod', 'C01.inline_const', 'C01.inline_equalconst',
                'C01.reg_body_step', 'C01.gen_reg_rule', 'C01.reg_body_wide_enable_counterexample', 'C01.reg_powerup_counterexample']
 
+# design-level theorems for FLAT designs (lean/Py4hwV/Props/C01Flat.lean, notes/C01deep.md): from the per-primitive theorems
+# above to whole designs, all widths, all input histories from power-up
+OBLIGATIONS_FLAT = ['C01Flat.settled_exists', 'C01Flat.settled_unique', 'C01Flat.settle_reaches', 'C01Flat.shipped_settle',
+                    'C01Flat.shipped_sim_settle', 'C01Flat.flat_settle', 'C01Flat.flat_settle_comb', 'C01Flat.flat_cycle',
+                    'C01Flat.flat_powerup', 'C01Flat.flat_run_corr', 'C01Flat.flat_run', 'C01Flat.store0_powerup', 'C01Flat.exF_wf',
+                    'FlatM.eval_congr', 'FlatM.kind_eval', 'FlatM.reg_body_exec', 'FlatM.comb_corr', 'FlatM.cycle_corr',
+                    'FlatM.run_corr', 'FlatM.FlatDesign.seqCorr']
+
 
 def widths_of(mod):
     """module s-expr tree -> {name: width}"""
@@ -126,6 +134,13 @@ def main(res, tier, rng, replay):
     for e in errors:
         res.broken.append(('translator', 'py2lean', e))
     res.proof_stage('Py4hwV.Props.C01', OBLIGATIONS)
+    # additive second proof stage: the design-level theorems (counts are summed into the evidence of the first stage)
+    c0 = (res.cov.get('obligations', 0), res.cov.get('discharged', 0), list(res.cov.get('axioms_seen', [])))
+    res.proof_stage('Py4hwV.Props.C01Flat', OBLIGATIONS_FLAT)
+    res.cov['obligations'] = res.cov.get('obligations', 0) + c0[0]
+    res.cov['discharged'] = res.cov.get('discharged', 0) + c0[1]
+    res.cov['axioms_seen'] = sorted(set(res.cov.get('axioms_seen', [])) | set(c0[2]))
+    res.cov['checker_cmd'] = 'cd lean && lake build Py4hwV.Props.C01 Py4hwV.Props.C01Flat && #print axioms on every obligation'
     n = 400 if tier == 'quick' else 8000
     vb = vsim.VBatch()
     jobs = []
